@@ -35,8 +35,10 @@ def content (src : List Str) (n : Nat) : Str :=
   let l := lineAt src n
   if isDecl l then (partitionChar ':' l).2.2 else l
 
+/-- the words of the lines `s..e`; a declaration line contributes what follows its `Name:` (inside a merged block of
+free text there are declaration lines after the first line too) -/
 def rangeWords (src : List Str) (s e : Nat) : List Str :=
-  words (content src s) ++ ((List.range (e - s)).flatMap fun i => words (lineAt src (s + 1 + i)))
+  words (content src s) ++ ((List.range (e - s)).flatMap fun i => words (content src (s + 1 + i)))
 
 /-- one field with a non-empty value: it has a range, inside the file, whose first and last lines
 hold content and whose lines contain every word of the value -/
